@@ -24,6 +24,13 @@ def run (toks : List String) : String :=
         let keys := ",".intercalate ((historyKeys c ev).map (fun (k, n) => s!"{k}:{n}"))
         s!"trace={showList showEv s.trace} steps={countStep s.trace} training={showBool s.training} grad={showBool s.gradOn} keys={if keys.isEmpty then "_" else keys}"
     | _, _, _, _, _, _, _, _ => "bad-op"
+  -- test <nTest> <tr0> <g0>
+  | ["test", n, tr0, g0] =>
+    match parseNat? n, parseBool? tr0, parseBool? g0 with
+    | some n, some tr0, some g0 =>
+      let s := test ⟨tr0, g0, []⟩ n
+      s!"trace={showList showEv s.trace} steps={countStep s.trace} training={showBool s.training} grad={showBool s.gradOn}"
+    | _, _, _ => "bad-op"
   -- acc <yTrue> <yPred>
   | ["acc", yt, yp] =>
     match parseNatList? yt, parseNatList? yp with
